@@ -948,9 +948,15 @@ class PathStorage(OutputBase):
         # A step that crashed after storing its path is done again after a
         # restart: files of the earlier attempt (their names differ) must not
         # stay behind in the directory of the new path.
+        # Files the path itself refers to (a path stored again in its own
+        # directory) are not leftovers.
+        own = {os.path.abspath(pp.config[0]) for pp in path.phasepoints}
         for leftover in os.listdir(traj_dir):
             leftover_file = os.path.join(traj_dir, leftover)
-            if os.path.isfile(leftover_file):
+            if (
+                os.path.isfile(leftover_file)
+                and os.path.abspath(leftover_file) not in own
+            ):
                 os.remove(leftover_file)
         # Write order, energy and traj files to the archive:
         _ = self.output_path_files(step, [path, "ACC"], archive_path)
